@@ -13,6 +13,17 @@ fn main() {
         usage();
     }
     let prop = args[1].clone();
+    if prop == "worker" {
+        // worker <property> <args...> [--root R]
+        let mut rest: Vec<String> = args[2..].to_vec();
+        if let Some(i) = rest.iter().position(|a| a == "--root") {
+            if let Some(r) = rest.get(i + 1) {
+                let _ = compass_verif::ROOT.set(r.clone());
+            }
+            rest.drain(i..(i + 2).min(rest.len()));
+        }
+        std::process::exit(compass_verif::mon::worker_main(&rest));
+    }
     let mut tier = std::env::var("VERIF_TIER").unwrap_or_else(|_| "quick".into());
     let mut seed: u64 = std::env::var("VERIF_SEED").ok().and_then(|s| s.parse().ok()).unwrap_or(1);
     let mut root = String::from("/verif");
@@ -38,9 +49,6 @@ fn main() {
             }
             _ => usage(),
         }
-    }
-    if prop == "worker" {
-        std::process::exit(compass_verif::mon::worker_main(&args[2..]));
     }
     if tier != "quick" && tier != "thorough" {
         usage();
